@@ -34,10 +34,10 @@ type keyView struct {
 	BigXj       []*crypto.ECPoint
 	Pub         *crypto.ECPoint
 	// ECDSA only
-	SK                     *paillier.PrivateKey
-	PKs                    []*paillier.PublicKey
-	NTildej, H1j, H2j      []*big.Int
-	NTildei, H1i, H2i      *big.Int
+	SK                      *paillier.PrivateKey
+	PKs                     []*paillier.PublicKey
+	NTildej, H1j, H2j       []*big.Int
+	NTildei, H1i, H2i       *big.Int
 	Alpha, Beta, PreP, PreQ *big.Int
 }
 
